@@ -76,6 +76,16 @@ int64_t evaluate_enum_access(const ASTNode *node, Interpreter &interpreter);
  */
 int64_t evaluate_enum_construct(const ASTNode *node, Interpreter &interpreter);
 
+/**
+ * Enum constructor / unit variant used as a value (E::B(3), E::A,
+ * Option<int>::None): builds the enum value itself - variant and payload -
+ * in the representation an enum variable holds.
+ * @param node AST_ENUM_CONSTRUCT or AST_ENUM_ACCESS node
+ * @param interpreter インタプリタインスタンス
+ * @return Variable 構築されたEnum値
+ */
+Variable make_enum_value(const ASTNode *node, Interpreter &interpreter);
+
 } // namespace SpecialAccessHelpers
 
 #endif // EXPRESSION_SPECIAL_ACCESS_H
